@@ -4,8 +4,10 @@
   * the string masking loop at the top of `FortranContainer.__init__` (`QUOTES_RE`),
   * the part of the `if/elif` cascade that decides which statements of an
     executable part reach `_add_procedure_calls` (the *order* of the cascade is
-    a generated table, `Generated/C08.lean`; the recognisers of the branches
-    that executable parts can hit are hand-written here),
+    a generated table, `Generated/C08.lean`; the guards FORMAT_RE and
+    ARITH_GOTO_RE are generated parse trees interpreted by `CallsRegex.lean`;
+    the recognisers of the other branches that executable parts can hit are
+    hand-written here),
   * `_add_procedure_calls`: `strip_paren` per depth, `SUBCALL_RE` on depth 0,
     `CALL_RE.finditer` on every piece of every depth, `%` chains, association
     substitution, the INTRINSICS filter, de-duplication on the last element,
@@ -19,6 +21,7 @@
 -/
 import FordModel.Basic.Chars
 import FordModel.Basic.Split
+import FordModel.CallsRegex
 namespace Ford.Calls
 open Ford
 
@@ -287,40 +290,8 @@ def addBatch (asc : Assocs) (items : List Str) : Option Assocs :=
 
 /-! ### the cascade (order generated, recognisers hand-written) -/
 
-/-- `^[0-9]+\s+format\s+\(.*\)` -/
-def formatRe (s : Str) : Bool :=
-  let n := spanLen isDigit s
-  if n == 0 then false else
-  let r := s.drop n
-  let w := spanLen isSpace r
-  if w == 0 then false else
-  match eatCI "format".toList (r.drop w) with
-  | none => false
-  | some t =>
-    let w2 := spanLen isSpace t
-    if w2 == 0 then false else
-    match t.drop w2 with
-    | '(' :: u => u.contains ')'
-    | _ => false
-
-/-- `go\s*to\s*\([0-9,\s]+\)` at the start of `s` -/
-def gotoHere (s : Str) : Bool :=
-  match eatCI "go".toList s with
-  | none => false
-  | some r =>
-    match eatCI "to".toList (dropSpaces r) with
-    | none => false
-    | some t =>
-      match dropSpaces t with
-      | '(' :: u =>
-        let k := spanLen (fun c => isDigit c || c == ',' || isSpace c) u
-        k > 0 && (u.drop k).head? == some ')'
-      | _ => false
-
-/-- `ARITH_GOTO_RE.search(s)` -/
-def arithGotoRe : Str → Bool
-  | [] => false
-  | c :: rest => gotoHere (c :: rest) || arithGotoRe rest
+/-! `FORMAT_RE` and `ARITH_GOTO_RE` are not read by hand: their parse trees are generated from
+    the source (`Generated.C08.guards`) and interpreted by `Rx.guardTest` (CallsRegex.lean). -/
 
 /-- optional construct name `(\w+\s*:)?` followed by `\s*`: the possible
     continuations (with the name first, then without) -/
@@ -424,15 +395,17 @@ def attribKeywords : List Str :=
    "volatile"].map String.toList
 
 /-- the separator and first character after the keyword of `ATTRIB_RE`:
-    `(?:\s+|\s*::\s*)((/|\(|\w).*?)\s*$` -/
-def attribTail (r : Str) : Bool :=
+    `(?:\s+|\s*::\s*|(?<=parameter)(?=\())((/|\(|\w).*?)\s*$`.
+    `param` says that the keyword just eaten is `parameter` (any case): then the
+    separator may be empty when a `(` follows directly (`parameter(n = 3)`). -/
+def attribTail (r : Str) (param : Bool := false) : Bool :=
   let w := spanLen isSpace r
   let ok (t : Str) : Bool := match t with
     | c :: _ => c == '/' || c == '(' || isWord c
     | [] => false
   match r.drop w with
   | ':' :: ':' :: t => ok (dropSpaces t)
-  | t => w > 0 && ok t
+  | t => (w > 0 && ok t) || (param && w == 0 && t.head? == some '(')
 
 /-- `ATTRIB_RE.match(s)` -/
 def attribRe (s : Str) : Bool :=
@@ -456,7 +429,7 @@ def attribRe (s : Str) : Bool :=
           | ')' :: u => attribTail u
           | _ => false
         | _ => false
-      else attribTail r)
+      else attribTail r (kw == "parameter".toList))
 
 /-- `USE_RE.match(s)` -/
 def useRe (s : Str) : Bool :=
@@ -495,7 +468,7 @@ inductive Act
 /-- does the branch named `name` (generated from the source) with guard `guard`
     take this statement?  Branches that only match specification-part or
     program-unit statements outside the modelled domain are `false`. -/
-def branchTakes (name guard : String) (line : Str) (bl : Int) : Bool :=
+def branchTakes (gs : Rx.Guards) (name guard : String) (line : Str) (bl : Int) : Bool :=
   let g := guard == "" || (guard == "blocklevel0" && bl == 0)
   let ll := lower line
   g && (
@@ -503,14 +476,14 @@ def branchTakes (name guard : String) (line : Str) (bl : Int) : Bool :=
     else if name == "in:public,private,protected" then
       ll == "public".toList || ll == "private".toList || ll == "protected".toList
     else if name == "eq:sequence" then ll == "sequence".toList
-    else if name == "FORMAT_RE" then formatRe line
+    else if name == "FORMAT_RE" then Rx.guardTest gs name line
     else if name == "ATTRIB_RE" then attribRe line
     else if name == "END_RE" then (endRe line).isSome
     else if name == "BLOCK_RE" then blockRe line
     else if name == "ASSOCIATE_RE" then (associateRe line).isSome
     else if name == "VARIABLE_RE" then variableRe line
     else if name == "USE_RE" then useRe line
-    else if name == "ARITH_GOTO_RE" then arithGotoRe line
+    else if name == "ARITH_GOTO_RE" then Rx.guardTest gs name line
     else if name == "CALL_RE|SUBCALL_RE" then callSearch line || (subcallChain line).isSome
     else false)
 
@@ -531,16 +504,16 @@ def branchAct (name : String) (line : Str) (bl : Int) : Act :=
   else .skip
 
 /-- first branch of the cascade that takes the statement -/
-def gate : List (String × String) → Str → Int → Act
+def gate (gs : Rx.Guards) : List (String × String) → Str → Int → Act
   | [], _, _ => .none
   | (name, guard) :: rest, line, bl =>
-    if branchTakes name guard line bl then branchAct name line bl else gate rest line bl
+    if branchTakes gs name guard line bl then branchAct name line bl else gate gs rest line bl
 
 /-- name of the branch taken (for the correspondence histogram) -/
-def gateName : List (String × String) → Str → Int → String
+def gateName (gs : Rx.Guards) : List (String × String) → Str → Int → String
   | [], _, _ => "-"
   | (name, guard) :: rest, line, bl =>
-    if branchTakes name guard line bl then name else gateName rest line bl
+    if branchTakes gs name guard line bl then name else gateName gs rest line bl
 
 /-! ### `_add_procedure_calls` -/
 
@@ -584,11 +557,11 @@ structure St where
   deriving Repr
 
 /-- one statement as delivered by the reader -/
-def step (casc : List (String × String)) (intr : List Str) (s : St) (raw : Str) : St :=
+def step (gs : Rx.Guards) (casc : List (String × String)) (intr : List Str) (s : St) (raw : Str) : St :=
   if s.done || s.err then s else
   if raw.take 2 == "!!".toList then s else
   let line := maskQuotes raw
-  match gate casc line s.bl with
+  match gate gs casc line s.bl with
   | .none => s
   | .skip => s
   | .block => { s with bl := s.bl + 1 }
@@ -608,8 +581,8 @@ def step (casc : List (String × String)) (intr : List Str) (s : St) (raw : Str)
       | some asc' => { s with calls := calls, assocs := asc' }
       | none => { s with calls := calls, err := true }
 
-def runUnit (casc : List (String × String)) (intr : List Str) (lines : List Str) : St :=
-  lines.foldl (step casc intr) {}
+def runUnit (gs : Rx.Guards) (casc : List (String × String)) (intr : List Str) (lines : List Str) : St :=
+  lines.foldl (step gs casc intr) {}
 
 /-! ### correlate: variables and types are removed (chains of length 1) -/
 
